@@ -13,9 +13,13 @@ GUARD = "OVM_VERIF_HOOKS"
 
 FLAVORS = {
     # NDEBUG matches the pinned RelWithDebInfo build; _GLIBCXX_ASSERTIONS turns every
-    # out-of-range operator[] into a deterministic abort.
+    # out-of-range operator[] into a deterministic abort.  UBSan's `vptr` check is off: the
+    # CRTP base detail::Tracked<T> downcasts `this` to T* inside its own constructor and
+    # destructor (Tracking.hh add()/remove()), which that check reports on every mesh
+    # construction although the pointer is only stored / compared, never dereferenced.
     "asan": ["-std=c++17", "-O1", "-g", "-DNDEBUG", "-D_GLIBCXX_ASSERTIONS",
-             "-fsanitize=address,undefined", "-fno-sanitize-recover=all", "-fno-omit-frame-pointer"],
+             "-fsanitize=address,undefined", "-fno-sanitize=vptr", "-fno-sanitize-recover=all",
+             "-fno-omit-frame-pointer"],
     "tsan": ["-std=c++17", "-O1", "-g", "-DNDEBUG", "-fsanitize=thread", "-fno-omit-frame-pointer"],
     "plain": ["-std=c++17", "-O2", "-DNDEBUG"],
 }
